@@ -938,54 +938,68 @@ theorem rab_next_spec {σ : Type} (A : Rab σ) (hblk : 0 < A.blk) : ∀ (fuel : 
             exact ⟨a, b, c, e, g, by rw [h, hbdl]; omega⟩
 
 def rabRem {σ : Type} (s : RabSt σ) : Bytes := if s.closed then [] else s.chunkbuf ++ s.r.data
-
-/-- between two `Next()` calls -/
 def RabInv {σ : Type} (A : Rab σ) (s : RabSt σ) : Prop :=
   s.closed = false → s.count = 0 ∧ s.chunkbuf = s.buf ∧ s.pre = A.pre0 ∧ s.dig = none
 
+theorem rab_some {σ : Type} (A : Rab σ) (hblk : 0 < A.blk) (s : RabSt σ) (hinv : RabInv A s) (hne : rabRem s ≠ []) :
+    ∃ s', RabSt.next A (2 * s.r.data.length + 4) s = (s', some ((rabRem s).take (cutRab A s.pos (rabRem s)))) ∧
+      RabInv A s' ∧ rabRem s' = (rabRem s).drop (cutRab A s.pos (rabRem s)) ∧
+      (rabRem s' = [] ∨ s'.pos = s.pos + cutRab A s.pos (rabRem s)) := by
+  have hcl : s.closed = false := by
+    cases hh : s.closed with
+    | false => rfl
+    | true => exact absurd (by simp [rabRem, hh]) hne
+  obtain ⟨h1, h2, h3, h4⟩ := hinv hcl
+  have hrem : rabRem s = s.chunkbuf ++ s.r.data := by simp [rabRem, hcl]
+  rw [hrem] at hne ⊢
+  have hmid : RabMid s := ⟨[], by rw [List.nil_append]; exact h2, by rw [h1]; rfl, fun h => by rw [h4] at h; cases h⟩
+  have hfu : 2 * s.r.data.length + (if s.buf.isEmpty then 1 else 2) ≤ 2 * s.r.data.length + 4 := by
+    split <;> omega
+  obtain ⟨s', hn, _, hpost⟩ := (rab_next_spec A hblk (2 * s.r.data.length + 4) s hcl hmid hfu).2 hne
+  have hc : rabFinish A s.pre s.count s.pos s.dig (s.buf ++ s.r.data) = cutRab A s.pos (s.chunkbuf ++ s.r.data) := by
+    rw [h1, h3, h4, ← h2]; rfl
+  rw [hc] at hn hpost
+  refine ⟨s', hn, ?_, ?_, ?_⟩
+  · intro hcl'
+    unfold RabPost at hpost
+    rw [hcl'] at hpost
+    exact ⟨hpost.1, hpost.2.1, hpost.2.2.1, hpost.2.2.2.1⟩
+  · unfold RabPost at hpost
+    cases hcl' : s'.closed with
+    | true =>
+      rw [hcl'] at hpost
+      have := hpost.2
+      rw [this]; simp [rabRem, hcl']
+    | false =>
+      rw [hcl'] at hpost
+      have := hpost.2.2.2.2.1
+      rw [← this]; simp [rabRem, hcl']
+  · unfold RabPost at hpost
+    cases hcl' : s'.closed with
+    | true => left; simp [rabRem, hcl']
+    | false =>
+      right
+      rw [hcl'] at hpost
+      have := hpost.2.2.2.2.2
+      rw [this, h1, Nat.sub_zero]
+theorem rab_none {σ : Type} (A : Rab σ) (hblk : 0 < A.blk) (s : RabSt σ) (hinv : RabInv A s) (h0 : rabRem s = []) :
+    ∃ s', RabSt.next A (2 * s.r.data.length + 4) s = (s', none) := by
+  cases hcl : s.closed with
+  | true => exact ⟨s, by simp [RabSt.next, hcl]⟩
+  | false =>
+    obtain ⟨h1, h2, h3, h4⟩ := hinv hcl
+    have hmid : RabMid s := ⟨[], by rw [List.nil_append]; exact h2, by rw [h1]; rfl, fun h => by rw [h4] at h; cases h⟩
+    have hfu : 2 * s.r.data.length + (if s.buf.isEmpty then 1 else 2) ≤ 2 * s.r.data.length + 4 := by
+      split <;> omega
+    have h0' : s.chunkbuf ++ s.r.data = [] := by simpa [rabRem, hcl] using h0
+    obtain ⟨s', hn, _⟩ := (rab_next_spec A hblk (2 * s.r.data.length + 4) s hcl hmid hfu).1 h0'
+    exact ⟨s', hn⟩
+
 theorem rab_sim {σ : Type} (A : Rab σ) (hblk : 0 < A.blk) : ∀ fuel (s : RabSt σ), RabInv A s →
     (drain (fun s => RabSt.next A (2 * s.r.data.length + 4) s) fuel s).1 =
-      specChunks (cutRab A) fuel s.pos (rabRem s) := by
-  apply drain_sim' (fun s => RabSt.next A (2 * s.r.data.length + 4) s) (cutRab A) (RabInv A) rabRem (fun s => s.pos)
-  · intro s hinv hne
-    have hcl : s.closed = false := by
-      cases hh : s.closed with
-      | false => rfl
-      | true => simp [rabRem, hh] at hne
-    obtain ⟨h1, h2, h3, h4⟩ := hinv hcl
-    have hrem : rabRem s = s.chunkbuf ++ s.r.data := by simp [rabRem, hcl]
-    rw [hrem] at hne ⊢
-    have hmid : RabMid s := ⟨[], by simpa using h2, by simp [h1], fun h => by simp [h4] at h⟩
-    obtain ⟨s', hn, _, hpost⟩ := (rab_next_spec A hblk (2 * s.r.data.length + 4) s hcl hmid (by split <;> omega)).2 hne
-    have hc : rabFinish A s.pre s.count s.pos s.dig (s.buf ++ s.r.data) = cutRab A s.pos (s.chunkbuf ++ s.r.data) := by
-      simp only [cutRab, h1, h3, h4, h2]
-    rw [hc] at hn hpost
-    refine ⟨s', hn, ?_, ?_, ?_⟩
-    · intro hcl'
-      simp only [RabPost, hcl', Bool.false_eq_true, if_false] at hpost
-      exact ⟨hpost.1, hpost.2.1, hpost.2.2.1, hpost.2.2.2.1⟩
-    · simp only [RabPost] at hpost
-      cases hcl' : s'.closed with
-      | true => rw [hcl'] at hpost; simp only [if_true] at hpost; simp [rabRem, hcl', hpost.2]
-      | false =>
-        rw [hcl'] at hpost; simp only [Bool.false_eq_true, if_false] at hpost
-        simp [rabRem, hcl', hpost.2.2.2.2.1]
-    · simp only [RabPost] at hpost
-      cases hcl' : s'.closed with
-      | true => left; simp [rabRem, hcl']
-      | false =>
-        right
-        rw [hcl'] at hpost; simp only [Bool.false_eq_true, if_false] at hpost
-        rw [hpost.2.2.2.2.2, h1]; rfl
-  · intro s hinv h0
-    cases hcl : s.closed with
-    | true => exact ⟨s, by simp [RabSt.next, hcl]⟩
-    | false =>
-      obtain ⟨h1, h2, h3, h4⟩ := hinv hcl
-      have hmid : RabMid s := ⟨[], by simpa using h2, by simp [h1], fun h => by simp [h4] at h⟩
-      have h0' : s.chunkbuf ++ s.r.data = [] := by simpa [rabRem, hcl] using h0
-      obtain ⟨s', hn, _⟩ := (rab_next_spec A hblk (2 * s.r.data.length + 4) s hcl hmid (by split <;> omega)).1 h0'
-      exact ⟨s', hn⟩
+      specChunks (cutRab A) fuel s.pos (rabRem s) :=
+  drain_sim' (fun s => RabSt.next A (2 * s.r.data.length + 4) s) (cutRab A) (RabInv A) rabRem (fun s => s.pos)
+    (fun s hi hne => rab_some A hblk s hi hne) (fun s hi h0 => rab_none A hblk s hi h0)
 
 theorem rabChunks_eq {σ : Type} (A : Rab σ) (hblk : 0 < A.blk) (rd : Rd) :
     rabChunks A rd = specChunks (cutRab A) (rd.data.length + 1) 0 rd.data := by
